@@ -54,6 +54,12 @@ def draw_run(seed, i, cfgs, tier):
     args = dict(runname=cfg['runname'], compl=cfg['compl'], basis=cfg['basis'], P=P, seed=rs, policy=pol,
                 eager=rng.choice([0.0, 0.2, 0.5, 0.8, 1.0]), root_copy=rng.random() < 0.25,
                 run_seed=rs, nfun=cfg['nfun'])
+    if rng.random() < (0.15 if tier == 'quick' else 0.3):
+        # F6b: what mpirun does by default - every rank's interpreter has its own string-hash secret.
+        # Offsets relative to the pool's hash seed; resolved to absolute seeds when the job is issued.
+        off = [rng.choice([0, 1, 2]) for _ in range(P)]
+        if len(set(off)) > 1:
+            args['hs_offsets'] = off
     return args
 
 
@@ -70,7 +76,7 @@ def main(tier, seed, budget):
     crng = base.rng_for(seed, 'c13-configs')
     cfgs, skipped = configs.pool(crng, n_sub=10 if quick else 40, max_n=5,
                                  cap=600 if quick else 1700)
-    stats = dict(worlds=0, ref_worlds=0, by_P={}, by_policy={}, eager={}, root_copy=0, events=0, mpi=0, fs=0,
+    stats = dict(mixed_hs=0, worlds=0, ref_worlds=0, by_P={}, by_policy={}, eager={}, root_copy=0, events=0, mpi=0, fs=0,
                  rdigests=set(), nontrivial=set(), harness=0, sound_functions=0, sound_points=0, empty_slice_runs=0,
                  hashseeds=hashseeds, ref_failed=[])
     samples = []
@@ -145,6 +151,8 @@ def main(tier, seed, budget):
                     idx += 1
                     a['ref_hashes'] = {f + '_%d.txt' % a['compl']: refs[cfg_key(a)].get(f + '_%d.txt' % a['compl']) for f in GEN_FILES}
                     a['hashseed'] = hs
+                    if a.get('hs_offsets'):
+                        a['rank_hashseeds'] = [hs + o for o in a['hs_offsets']]
                     yield dict(fn=JOB, args=a, timeout=900)
             pending_min = []
             for job, out in pool.imap(gen_jobs(), timeout=900, deadline=deadline):
@@ -159,6 +167,7 @@ def main(tier, seed, budget):
                 stats['by_policy'][a['policy']['kind']] = stats['by_policy'].get(a['policy']['kind'], 0) + 1
                 stats['eager'][str(a['eager'])] = stats['eager'].get(str(a['eager']), 0) + 1
                 stats['root_copy'] += int(a['root_copy'])
+                stats['mixed_hs'] += int(bool(a.get('hs_offsets')))
                 stats['events'] += r['steps']
                 stats['mpi'] += r['nmpi']
                 stats['fs'] += r['nfs']
@@ -170,7 +179,7 @@ def main(tier, seed, budget):
                 if a['P'] > a['nfun']:
                     stats['empty_slice_runs'] += 1
                 ss = sigs_of(a, r)
-                gk = (cfg_key(a), a['P'], hs, a['root_copy'])
+                gk = (cfg_key(a), a['P'], hs, a['root_copy'], tuple(a.get('hs_offsets') or ()))
                 if not ss and not r.get('real_expired'):
                     if gk not in groups:
                         groups[gk] = (a, r['hashes'])
@@ -212,14 +221,14 @@ def main(tier, seed, budget):
              'order in which ranks touch every object (collective instance, shared path) touched by >= 2 ranks.' % 5,
         samples=samples,
         configurations=len(cfgs), configurations_skipped_over_cap=len(skipped), configurations_with_unmerge_path=sum(1 for c in cfgs if c.get('unmerged')), reference_failed=stats['ref_failed'],
-        worlds_by_P=stats['by_P'], worlds_by_policy=stats['by_policy'], eager_bias=stats['eager'], bcast_root_copy_runs=stats['root_copy'],
+        worlds_by_P=stats['by_P'], worlds_by_policy=stats['by_policy'], eager_bias=stats['eager'], bcast_root_copy_runs=stats['root_copy'], worlds_with_per_rank_hash_seeds=stats['mixed_hs'],
         runs_with_more_ranks_than_functions=stats['empty_slice_runs'],
         seam_events=stats['events'], mpi_events=stats['mpi'], fs_events=stats['fs'],
         distinct_interleavings=len(stats['rdigests']),
         functions_checked_by_libsound=stats['sound_functions'], oracle_points=stats['sound_points'],
         hash_seeds=hashseeds, runs_per_hour=round(3600.0 * nworlds / max(wall, 1e-9)),
         fault_kinds={'F1 interleaving choice': stats['events'], 'F2 eager/rendezvous coin': stats['mpi'],
-                     'F5 rank count (worlds with P>=2)': nworlds, 'F6 hash seed': len(hashseeds)},
+                     'F5 rank count (worlds with P>=2)': nworlds, 'F6 hash seed (per run)': len(hashseeds), 'F6b hash seed per rank (worlds)': stats['mixed_hs']},
         selftest=selftest, components=base.COMPONENTS, harness_errors=len(rep.harness), repo_head=base.repo_head(),
         exhaustive=False)
     rc = rep.finish()
